@@ -159,6 +159,8 @@ func isBasicPointer(typ types.Type) bool {
 
 func (g *gen) genStatement(typ types.Type, this string) error {
 	p := g.printer
+	// an alias is the type it stands for: look at that type, not at the alias node
+	typ = types.Unalias(typ)
 	switch ttyp := typ.Underlying().(type) {
 	case *types.Basic:
 		p.P("%s.Fprintf(buf, \"return %s\\n\", %s)", g.fmtPkg(), "%#v", this)
@@ -170,7 +172,7 @@ func (g *gen) genStatement(typ types.Type, this string) error {
 		p.Out()
 		p.P("} else {")
 		p.In()
-		reftyp := ttyp.Elem()
+		reftyp := types.Unalias(ttyp.Elem())
 		thisref := "*" + this
 		named, isNamed := reftyp.(*types.Named)
 		strct, isStruct := reftyp.Underlying().(*types.Struct)
